@@ -35,6 +35,26 @@ def checks_table(ctx):
     return ctx.f.table(CHECKS_MOD, '_CHECKS')
 
 
+def callable_info(ref):
+    """(FuncInfo, captured constants) of a table entry: a module-level function or a closure made by a factory."""
+    if isinstance(ref, FuncRef):
+        return ref.info, {}
+    if isinstance(ref, tuple) and len(ref) == 3 and ref[0] == 'closure':
+        env = {k: (v.const if isinstance(v, AV) and v.is_const else v) for k, v in ref[2].items()
+               if isinstance(v, (int, float, str, bool, type(None))) or (isinstance(v, AV) and v.is_const)}
+        return ref[1], env
+    return None, None
+
+
+def check_key(ref):
+    """Identity of a check callable in event logs (closures of one factory share their qname)."""
+    if isinstance(ref, FuncRef):
+        return ref.info.qname
+    if isinstance(ref, tuple) and len(ref) == 3 and ref[0] == 'closure':
+        return f'{ref[1].qname}#{id(ref)}'
+    return None
+
+
 def attr_domains(ctx, report_rule=None):
     """attr -> DomainResult for the integer valued attributes, from _CHECKS."""
     table = checks_table(ctx)
@@ -42,14 +62,15 @@ def attr_domains(ctx, report_rule=None):
     for name, ref in table.items():
         if name in ('data', 'type', 'time'):
             continue
-        if not isinstance(ref, FuncRef):
+        info, cenv = callable_info(ref)
+        if info is None:
             raise AnalysisError(f'_CHECKS[{name!r}] is not a function')
-        fn = ctx.fn(ref.info)
+        fn = ctx.fn(info)
         params = fn.params()
         if not params:
             raise AnalysisError(f'{fn.qname} has no parameter')
         try:
-            r = check_domain(ctx.p, ctx.f, fn, params[0])
+            r = check_domain(ctx.p, ctx.f, fn, params[0], cenv)
         except Undecidable as e:
             r = None
             if report_rule:
@@ -80,32 +101,43 @@ def attr_syms(domains):
 
 
 def data_byte_domain(ctx):
-    """(fn, DomainResult) for the per-item check applied by check_data."""
+    """(check_data FuncInfo, item check FuncInfo, DomainResult of the item check).  Which function check_data applies to the items
+    is found by abstractly interpreting it on three symbolic bytes: exactly one callable must be entered once per item, in order,
+    with the item as its argument (a module-level function or a closure made by a factory); its accepted set is then derived."""
+    from .absint import EVENT_LOG
     table = checks_table(ctx)
     ref = table.get('data')
-    if not isinstance(ref, FuncRef):
+    info, cenv = callable_info(ref)
+    if info is None:
         raise AnalysisError("_CHECKS['data'] is not a function")
-    fn = ctx.fn(ref.info)
-    # shape: for x in <param>: <item check>(x)   with nothing else
-    params = fn.params()
-    body = [s for s in fn.node.body if not (isinstance(s, ast.Expr) and isinstance(s.value, ast.Constant))]
-    item_fn = None
-    ok = False
-    if len(body) == 1 and isinstance(body[0], ast.For) and isinstance(body[0].iter, ast.Name) \
-            and body[0].iter.id == params[0] and isinstance(body[0].target, ast.Name) and not body[0].orelse:
-        lb = body[0].body
-        if len(lb) == 1 and isinstance(lb[0], ast.Expr) and isinstance(lb[0].value, ast.Call):
-            c = lb[0].value
-            if len(c.args) == 1 and isinstance(c.args[0], ast.Name) and c.args[0].id == body[0].target.id:
-                callee = astq.resolve_callee(ctx.p, fn, c)
-                if hasattr(callee, 'node'):
-                    item_fn = callee
-                    ok = True
-    if not ok:
+    fn = ctx.fn(info)
+    ai = AbsInt(ctx.f)
+    xs = [AV.of_sym(Sym(f'item{i}', 127)) for i in range(3)]
+    holder = {}
+
+    def thunk():
+        r = ai.apply(ref, [AList(list(xs), 'list')], {}, None)
+        holder['log'] = list(EVENT_LOG)
+        return r
+    outs = ai.explore(thunk)
+    if len(outs) != 1 or outs[0].kind != 'return':
         return fn, None, None
+    calls = [e for e in holder['log'] if e[0] == 'enter' and any(e[2] is x for x in xs)]
+    if calls:
+        top = min(e[5] for e in calls)          # the callable check_data itself applies (it may delegate further down)
+        calls = [e for e in calls if e[5] == top]
+    seen = [next(i for i, x in enumerate(xs) if e[2] is x) for e in calls]
+    infos = {(e[3].qname, id(e[4]) if e[4] is not None else None) for e in calls}
+    if seen != [0, 1, 2] or len(infos) != 1:
+        return fn, None, None
+    item_fn, closure = calls[0][3], calls[0][4]
     ctx.fn(item_fn)
+    ienv = {}
+    if closure is not None:
+        ienv = {k: (v.const if isinstance(v, AV) and v.is_const else v) for k, v in closure.items()
+                if isinstance(v, (int, float, str, bool, type(None))) or (isinstance(v, AV) and v.is_const)}
     try:
-        r = check_domain(ctx.p, ctx.f, item_fn, item_fn.params()[0])
+        r = check_domain(ctx.p, ctx.f, item_fn, item_fn.params()[0], ienv)
     except Undecidable as e:
         ctx.fail('R02.3', 'item-range', ctx.where(item_fn), f'cannot derive the set of data byte values accepted by {item_fn.name}: {e}',
                  construct=f'{item_fn.qname}::domain(data)')
